@@ -10,6 +10,7 @@ import (
 	"errors"
 	"io"
 	"net"
+	"sync"
 	"time"
 )
 
@@ -58,6 +59,7 @@ const (
 
 // vfConn is the scripted transport.
 type vfConn struct {
+	lmu       sync.Mutex // a net.Conn is safe for concurrent use: guards the bookkeeping below
 	in        []byte
 	rpos      int
 	cut       int // bytes [cut:] are never delivered
@@ -93,6 +95,7 @@ func (c *vfConn) faultErr() error {
 }
 
 func (c *vfConn) Read(p []byte) (int, error) {
+	vfYield() // the transport may block here for arbitrarily long
 	c.nreads++
 	if c.rerr != nil {
 		return 0, c.rerr
@@ -159,6 +162,9 @@ func (c *vfConn) wfaultNow() bool {
 }
 
 func (c *vfConn) Write(p []byte) (int, error) {
+	vfYield() // the transport may block here for arbitrarily long
+	c.lmu.Lock()
+	defer c.lmu.Unlock()
 	if c.wfailed {
 		c.afterFail++
 	}
@@ -181,6 +187,9 @@ func (c *vfConn) Write(p []byte) (int, error) {
 }
 
 func (c *vfConn) Close() error {
+	vfYield()
+	c.lmu.Lock()
+	defer c.lmu.Unlock()
 	c.closed++
 	c.ops = append(c.ops, vfOp{kind: vfOpClose})
 	return nil
@@ -190,16 +199,23 @@ func (c *vfConn) LocalAddr() net.Addr  { return nil }
 func (c *vfConn) RemoteAddr() net.Addr { return nil }
 
 func (c *vfConn) SetDeadline(t time.Time) error {
+	c.lmu.Lock()
+	defer c.lmu.Unlock()
 	c.ops = append(c.ops, vfOp{kind: vfOpSetDeadline, t: t})
 	return nil
 }
 
 func (c *vfConn) SetReadDeadline(t time.Time) error {
+	c.lmu.Lock()
+	defer c.lmu.Unlock()
 	c.ops = append(c.ops, vfOp{kind: vfOpSetReadDeadline, t: t})
 	return nil
 }
 
 func (c *vfConn) SetWriteDeadline(t time.Time) error {
+	vfYield()
+	c.lmu.Lock()
+	defer c.lmu.Unlock()
 	if c.wfaultNow() {
 		c.wfailed = true
 		c.ops = append(c.ops, vfOp{kind: vfOpSetWriteDeadline, t: t, err: true})
@@ -236,10 +252,13 @@ func (c *vfConn) nWrites() int {
 // vfRand is the model of crypto/rand.Reader and maskRand: fresh arbitrary
 // bytes on every draw, each draw logged.
 type vfRand struct {
+	mu    sync.Mutex // crypto/rand.Reader is safe for concurrent use
 	draws [][]byte
 }
 
 func (r *vfRand) Read(p []byte) (int, error) {
+	r.mu.Lock()
+	defer r.mu.Unlock()
 	d := make([]byte, len(p))
 	for i := range p {
 		p[i] = vfByte()
@@ -259,6 +278,7 @@ func vfInit() {
 
 // vfPool is the instrumented BufferPool model.
 type vfPool struct {
+	mu     sync.Mutex
 	items  []interface{}
 	gets   int
 	puts   int
@@ -269,6 +289,8 @@ type vfPool struct {
 }
 
 func (p *vfPool) Get() interface{} {
+	p.mu.Lock()
+	defer p.mu.Unlock()
 	p.gets++
 	p.log = append(p.log, 1)
 	if p.reuse && len(p.items) > 0 {
@@ -280,6 +302,8 @@ func (p *vfPool) Get() interface{} {
 }
 
 func (p *vfPool) Put(v interface{}) {
+	p.mu.Lock()
+	defer p.mu.Unlock()
 	p.puts++
 	p.log = append(p.log, -1)
 	if p.poison {
